@@ -19,7 +19,9 @@ for d in sorted(os.listdir(os.path.join(ROOT, "seeded"))):
         print(f"refusing: {REPO} has local changes"); sys.exit(2)
     a = subprocess.run(["git", "-C", REPO, "apply", patch], capture_output=True, text=True)
     if a.returncode != 0:
-        rows.append((d, prop, "PATCH-DOES-NOT-APPLY", a.stderr.strip()[:100])); continue
+        rows.append((d, prop, "PATCH-DOES-NOT-APPLY", a.stderr.strip()[:100]))
+        print("row: " + " | ".join(rows[-1]), flush=True)
+        continue
     try:
         props = [prop] + meta.get("also_check", [])
         res = []
